@@ -82,7 +82,8 @@ def universe_for(n, okinds, dkinds, same_names=False):
             spec[f"O{i}{k}"] = ("origin", k)
         for k in dkinds:
             spec[f"D{i}{k}"] = ("dest", k)
-    return Universe(spec, namer=(lambda lab: "x") if same_names is True else None, subclass=(same_names == "sub"))
+    namer = (lambda lab: "x") if same_names is True else ((lambda lab: "$" + lab[0] + "_{" + lab[1:] + "}$") if same_names == "braces" else None)
+    return Universe(spec, namer=namer, subclass=(same_names == "sub"))
 
 
 def build(U, n, edges, links, origins, dests, history):
@@ -203,7 +204,13 @@ def shard_worker(item):
         dest_opts = list(attach_options(n, dkinds, "D", sharing))
         for links in link_patterns:
             for origins in origin_opts:
-                for dests in dest_opts:
+                # ... and, when objects may be shared, an ORIGIN object attached once more as the destination of some node
+                cross = []
+                if sharing:
+                    for o_ in sorted({x for x in origins if x is not None}):
+                        for i_ in range(n):
+                            cross.append(tuple(o_ if j_ == i_ else None for j_ in range(n)))
+                for dests in dest_opts + cross:
                     st.inc("states")
                     problems, valid, bad = check_one(U, n, edges, links, origins, dests, st)
                     st.inc("valid" if valid else "invalid")
@@ -242,6 +249,10 @@ def explore(tier, seed, nproc):
                     # ... and with every element an instance of a user-defined subclass of its class
                     items.append((n, edges, okinds, dkinds, sharing, "sub"))
                     cnt += 1
+                    # ... and with names containing braces and dollar signs (LaTeX-style labels)
+                    if n <= 2:
+                        items.append((n, edges, okinds, dkinds, sharing, "braces"))
+                        cnt += 1
         bounds.append({"nodes": n, "max_links": mmax, "origin_kinds": okinds, "dest_kinds": dkinds,
                        "object_sharing": sharing, "edge_sets": cnt})
     # palettes: the seed rotates the order in which shards are dealt (coverage is identical)
